@@ -774,7 +774,8 @@ func c09Veneers(d *Defs, r *rng, pct int) (string, []string) {
 				n := tools.UpperCamelCase(f.Name)
 				opts = append(opts, fmt.Sprintf("  - unfold_boolean: { by_name: %s, true_as: with%sOn, false_as: with%sOff }", sel, n, n))
 				tags = append(tags, "unfold_boolean")
-			case f.Ty.Kind == SRef && ft.Kind == SStruct && !f.Nullable && f.Required && f.Ty.Ref != def.Name:
+			case f.Ty.Kind == SRef && ft.Kind == SStruct && f.Ty.Ref != def.Name:
+				// (required or optional: an optional struct member is a nil pointer until a nil check fills it)
 				// flatten the member into options / arguments; with some probability go on
 				// flattening the struct members this exposes (sibling options whose assignment
 				// paths share a prefix several levels deep)
@@ -803,7 +804,7 @@ func c09Veneers(d *Defs, r *rng, pct int) (string, []string) {
 					}
 					for _, g := range st.Fields {
 						gt := d.resolve(g.Ty)
-						if g.Ty.Kind == SRef && gt != nil && gt.Kind == SStruct && !g.Nullable && g.Required && !seen[g.Ty.Ref] && r.chance(70) {
+						if g.Ty.Kind == SRef && gt != nil && gt.Kind == SStruct && !seen[g.Ty.Ref] && r.chance(70) {
 							seen[g.Ty.Ref] = true
 							tags = append(tags, fmt.Sprintf("flatten.depth%d", depth+1))
 							expand(g.Name, gt, seen, depth+1)
@@ -1373,13 +1374,30 @@ func c09DeepDefs(r *rng) *Defs {
 		}
 		l3.Fields = append(l3.Fields, fld(nm(), t.clone(), true, false, nil))
 	}
+	if r.chance(50) {
+		// a constrained scalar directly followed by collection members (names chosen so that the
+		// order survives the front-ends that sort members by name)
+		var con *Src
+		if r.chance(60) {
+			con = srcStringLen(i64p(int64(2+r.intn(2))), nil)
+		} else {
+			con = srcInt(64, true, i64p(int64(3+r.intn(5))), nil)
+		}
+		extra := []Field{fld("acode", con, true, false, nil), fld("atags", srcArray(srcString()), true, false, nil)}
+		if r.chance(50) {
+			extra = append(extra, fld("azmap", srcDict(srcInt(64, true, nil, nil)), true, false, nil))
+		}
+		l3.Fields = append(extra, l3.Fields...)
+	}
 	leg, disp, cfg := "leg"+nm(), "disp"+nm(), "cfg"+nm()
-	l2 := srcStruct(fld(nm(), scalar(), true, false, nil), fld(leg, srcRef("Legend"), true, false, nil))
-	l1 := srcStruct(fld(nm(), scalar(), true, false, nil), fld(disp, srcRef("Display"), true, false, nil))
+	// each level required or optional (an optional struct member is nil until a nil check fills it)
+	req := func() bool { return !r.chance(40) }
+	l2 := srcStruct(fld(nm(), scalar(), true, false, nil), fld(leg, srcRef("Legend"), req(), false, nil))
+	l1 := srcStruct(fld(nm(), scalar(), true, false, nil), fld(disp, srcRef("Display"), req(), false, nil))
 	if r.chance(50) {
 		l1.Fields[0], l1.Fields[1] = l1.Fields[1], l1.Fields[0]
 	}
-	root := srcStruct(fld(nm(), scalar(), true, false, nil), fld(cfg, srcRef("Config"), true, false, nil))
+	root := srcStruct(fld(nm(), scalar(), true, false, nil), fld(cfg, srcRef("Config"), req(), false, nil))
 	return &Defs{Root: "Widget", Items: []Def{{"Widget", root}, {"Config", l1}, {"Display", l2}, {"Legend", l3}}}
 }
 
